@@ -11,6 +11,12 @@ pub mod c08;
 pub mod c09;
 pub mod c10;
 pub mod c11;
+pub mod c12;
+pub mod c13;
+pub mod c14;
+pub mod c15;
+pub mod c17;
+pub mod c18;
 pub mod c07;
 
 pub fn dispatch(ctx: &Ctx) -> Rec {
@@ -26,6 +32,12 @@ pub fn dispatch(ctx: &Ctx) -> Rec {
     "C09" => c09::run(ctx),
     "C10" => c10::run(ctx),
     "C11" => c11::run(ctx),
+    "C12" => c12::run(ctx),
+    "C13" => c13::run(ctx),
+    "C14" => c14::run(ctx),
+    "C15" => c15::run(ctx),
+    "C17" => c17::run(ctx),
+    "C18" => c18::run(ctx),
     "C07" => c07::run(ctx),
     other => {
       eprintln!("unknown property {}", other);
